@@ -445,6 +445,12 @@ def run(ctx):
     ctx.guard("length-field", "md", lambda: check_length_fields(ctx, P))
     ctx.guard("sponge-pad", "sha3", lambda: check_sponge_pad(ctx, P))
     ctx.guard("blake2-param", "engines", lambda: check_blake2_params(ctx, P))
+    # which block gets BLAKE2's last-block flag, and that every byte reaches a compression exactly once, is decided by
+    # the buffering discipline of the contexts (shared rule instances with C02): a one-shot digest of a message whose
+    # length is a multiple of the block size depends on it
+    from . import C02 as _C02
+    ctx.guard("absorb", "all", lambda: _C02.check_absorb(ctx, P))
+    ctx.guard("block-run", "all", lambda: _C02.check_block_runs(ctx, P))
     hashctx.check_all_blake2_keyed(ctx, P, which=("new_keyed",))
     ctx.guard("rotations", "reference", lambda: check_rotations(ctx, P))
     from . import simdeq
